@@ -282,7 +282,8 @@ class PythonRegex(regex.Regex):
                 excluded.add(element)
         # The same character can be written escaped or not
         excluded.update([TRANSFORMATIONS.get(x[1], x[1]) for x in excluded
-                         if len(x) == 2 and x[0] == "\\"])
+                         if len(x) == 2 and x[0] == "\\"
+                         and x not in RECOMBINE])
         excluded.update([RECOMBINE[x] for x in excluded if x in RECOMBINE])
         # Unlike the dot, a negated set matches the newline
         return [x for x in ESCAPED_PRINTABLES + ["\n"] if x not in excluded]
@@ -453,13 +454,35 @@ class PythonRegex(regex.Regex):
         # not taken for a shortcut
         regex_temp = []
         idx = 0
+        # In a set, [ is a literal and so is ] when it comes first. They are
+        # escaped here, before the shortcuts introduce nested sets
+        in_set = False
+        first_in_set = False
         while idx < len(self._python_regex):
             symbol = self._python_regex[idx]
             if symbol == "\\" and idx + 1 < len(self._python_regex):
                 pair = self._python_regex[idx:idx + 2]
                 regex_temp.append(SHORTCUTS.get(pair, pair))
                 idx += 2
+                first_in_set = False
+            elif not in_set and symbol == "[":
+                in_set = True
+                first_in_set = True
+                regex_temp.append(symbol)
+                idx += 1
+                if self._python_regex[idx:idx + 1] == "^":
+                    regex_temp.append("^")
+                    idx += 1
+            elif in_set and symbol == "]" and not first_in_set:
+                in_set = False
+                regex_temp.append(symbol)
+                idx += 1
+            elif in_set and symbol in "[]":
+                regex_temp.append("\\" + symbol)
+                idx += 1
+                first_in_set = False
             else:
                 regex_temp.append(SHORTCUTS.get(symbol, symbol))
                 idx += 1
+                first_in_set = False
         self._python_regex = "".join(regex_temp)
